@@ -96,6 +96,7 @@ def _partial(cls):
             _PARTIAL[cls] = type(cls.__name__, (cls,), ns)
         return _PARTIAL[cls]
     return cls
+REFS: dict = {}             # "$oid" -> rebuilt object, per judged call (identity-preserving copies)
 FIELD_TYPES: dict = {}      # class name -> {field: declared type text}, filled from the sidecars in prepare()
 
 
@@ -124,9 +125,13 @@ def decode(x, module=None):
                 ecls = getattr(ecls, part)
             members = list(ecls)
             return ecls[x["name"]] if "name" in x else members[(x["index"] - 1) % len(members)]
+        if "$ref" in x:
+            return REFS[x["$ref"]]
         if "$class" in x:
             cls = find_class(x["$class"], module)
             obj = _partial(cls).__new__(_partial(cls))
+            if "$oid" in x:
+                REFS[x["$oid"]] = obj      # registered before its fields are filled: back references resolve
             for k, v in x.items():
                 if k.startswith("$"):
                     continue
@@ -296,9 +301,10 @@ def scenario_search(prep, sp, rng, inst, timeout, excl):
             state["busy"] = True
             state["calls"] += 1
             try:
-                inputs = {"self": builders.to_json(self, classes)}
+                memo = {}
+                inputs = {"self": builders.to_json(self, classes, 0, memo)}
                 for name, val in list(zip(params, a)) + list(kw.items()):
-                    inputs[name] = builders.to_json(val, classes)
+                    inputs[name] = builders.to_json(val, classes, 0, memo)
                 out = judge(prep, inputs, min(timeout, 1.0), excl)
                 if out.get("status") == "violation":
                     out["inputs"] = inputs
@@ -334,6 +340,7 @@ def judge(prep, inputs_json: dict, timeout: float, excl=()) -> dict:
     reg, ctx, unit, c, mod, owner, fn = prep
     is_init = unit.endswith(".__init__") and owner is not None
     OPAQUES.clear()
+    REFS.clear()
     inputs = {k: decode(v, mod) for k, v in inputs_json.items() if not (is_init and k == "self")}
     if is_init:
         # the constructor runs on a fresh object; a 'self' in a solver model is the unconstrained pre-state
@@ -394,6 +401,8 @@ def judge(prep, inputs_json: dict, timeout: float, excl=()) -> dict:
             if not ctx.evaluate(r, local):
                 return {"status": "precondition-false", "clause": r}
     except Exception as ex:
+        if os.environ.get("PYVC_REPLAY_DEBUG"):
+            traceback.print_exc(limit=-12)
         return {"status": "precondition-error", "detail": f"{type(ex).__name__}: {ex}"}
     for region in excl:
         try:
